@@ -62,7 +62,8 @@ def build(sel):
         arr.set_annotation("atom_id", np.array([IDS[sel["aid"]] - 3, IDS[sel["aid"]] - 2, IDS[sel["aid"]] - 1, IDS[sel["aid"]]]))
     if sel["bonds"] and not (opt & 8 and IDS[sel["aid"]] - 3 < 1):
         # (CONECT parsing requires positive, increasing atom ids)
-        arr.bonds = struc.BondList(n, np.array([[2, 3, 1], [1, 2, 2], [0, 1, 1]]))
+        # (0, 2): between chains, same residue number and insertion code when rid selects 1 (e.g. a disulfide bridge of a homodimer)
+        arr.bonds = struc.BondList(n, np.array([[2, 3, 1], [1, 2, 2], [0, 1, 1], [0, 2, 1]]))
     if sel["box"]:
         arr.box = np.diag([10.0, 20.5, 30.25]).astype(np.float32)
     if sel["models"] == 2:
@@ -150,8 +151,8 @@ def check_pdb(sel):
     if sel["box"] and (back.box is None or not np.allclose(np.asarray(back.box).reshape(-1, 3, 3)[0], np.asarray(atoms.box).reshape(-1, 3, 3)[0], atol=1e-2)):
         return "box"
     if atoms.bonds is not None:
-        # CONECT carries bonds of hetero atoms / between residues: here (2,3) HOH-U hetero, (1,2) inter-chain; (0,1) inter-residue
-        wantb = {(0, 1), (1, 2), (2, 3)}
+        # CONECT carries bonds of hetero atoms / between residues: here (2,3) HOH-U hetero, (1,2) inter-chain; (0,1) inter-residue; (0,2) inter-chain at equal residue id
+        wantb = {(0, 1), (1, 2), (2, 3), (0, 2)}
         gotb = {(int(a), int(b)) for a, b, _ in back.bonds.as_array().tolist()}
         if gotb != wantb:
             return f"bonds {sorted(gotb)} vs {sorted(wantb)}"
